@@ -44,13 +44,15 @@ structure Relay where
   proof : Proof
   deriving Repr
 
-/-- The application record as the apps keeper returns it. `staked` = status Staked ∧ ¬ jailed:
-*read by nobody* in the validation (kept to state exactly that). -/
+/-- The application record as the apps keeper returns it — exactly the fields the validation
+reads.  There is deliberately **no status / jailed field**: `Relay.Validate` never looks at
+`GetStatus()` or `IsJailed()`, so an unstaking or jailed application that still has a record at the
+session height is served like a staked one (run on the real code by the harness: alterations
+`app-unstaking`, `app-jailed`). -/
 structure App where
   pubRaw : String           -- `GetPublicKey().RawString()`
   chains : List String
   maxRelays : Int
-  staked : Bool
   deriving Repr
 
 structure Evidence where
@@ -60,11 +62,16 @@ structure Evidence where
   has : Bool                -- bloom filter test of this proof's hash
   deriving Repr
 
-inductive Res where
-  | ok (maxRelays : Int)
+/-- Ways a relay is not served. -/
+inductive Fail where
   | err (space : String) (code : Nat)
   | panic                   -- Go runtime panic (recovered by the RPC server)
   | fatal                   -- `log.Fatalf`: the node process exits
+  deriving Repr, DecidableEq
+
+inductive Res where
+  | ok (maxRelays : Int)
+  | fail (f : Fail)
   deriving Repr, DecidableEq
 
 structure Env where
@@ -98,28 +105,28 @@ structure Env where
 
 def hexDecode (s : String) : Option Bytes := Bytes.ofHexChars s.toList
 
-def pc (code : Nat) : Res := .err "pocketcore" code
+def pc (code : Nat) : Fail := .err "pocketcore" code
 
 /-- `PubKeyVerification`: hex, 32 bytes. -/
-def pubKeyVerification (s : String) : Option Res :=
+def pubKeyVerification (s : String) : Option Fail :=
   match hexDecode s with
   | none => some (pc 6)
   | some b => if b.length ≠ 32 then some (pc 42) else none
 
 /-- `NetworkIdentifierVerification`: hex, non-empty, at most 4 bytes. -/
-def networkIdVerification (s : String) : Option Res :=
+def networkIdVerification (s : String) : Option Fail :=
   match hexDecode s with
   | none => some (pc 52)
   | some b => if b.length = 0 then some (pc 23) else if b.length > 4 then some (pc 62) else none
 
 /-- `HashVerification`: hex, non-empty, 32 bytes. -/
-def hashVerification (s : String) : Option Res :=
+def hashVerification (s : String) : Option Fail :=
   match hexDecode s with
   | none => some (pc 52)
   | some b => if b.length = 0 then some (pc 23) else if b.length ≠ 32 then some (pc 62) else none
 
 /-- `SignatureVerification(publicKeyHex, msg, sigHex)`; the message is a hash (always valid hex). -/
-def signatureVerification (E : Env) (pub : String) (msg : Bytes) (sig : String) : Option Res :=
+def signatureVerification (E : Env) (pub : String) (msg : Bytes) (sig : String) : Option Fail :=
   match hexDecode sig with
   | none => some (pc 39)
   | some sb =>
@@ -137,7 +144,7 @@ def tokenValid (E : Env) (t : AAT) : Bool :=
   (signatureVerification E t.appPub (E.tokenHash t) t.appSig).isNone
 
 /-- `RelayProof.ValidateBasic`. -/
-def validateBasic (E : Env) (p : Proof) : Option Res :=
+def validateBasic (E : Env) (p : Proof) : Option Fail :=
   if p.sbh < 1 then some (pc 60)
   else match pubKeyVerification p.servicer with
   | some e => some e
@@ -153,7 +160,7 @@ def validateBasic (E : Env) (p : Proof) : Option Res :=
   else signatureVerification E p.token.clientPub (E.proofHash p) p.sig
 
 /-- `RelayProof.ValidateLocal`. -/
-def validateLocal (E : Env) (p : Proof) (appChains : List String) (sbh : Int) : Option Res :=
+def validateLocal (E : Env) (p : Proof) (appChains : List String) (sbh : Int) : Option Fail :=
   match validateBasic E p with
   | some e => some e
   | none =>
@@ -167,7 +174,7 @@ def validateLocal (E : Env) (p : Proof) (appChains : List String) (sbh : Int) : 
 
 /-- `Session.Validate`. -/
 def sessionValidate (E : Env) (p : Proof) (app : App) (nodes : List (Option Bytes)) (count : Int) :
-    Option Res :=
+    Option Fail :=
   if p.chain.length = 0 then some (pc 18)
   else if p.sbh < 1 then some (pc 60)
   else match pubKeyVerification p.token.appPub with
@@ -187,43 +194,59 @@ def maxPossibleRelays (app : App) (count : Int) : Option Int := do
   let y ← BigDec.quo x (BigDec.ofInt count)
   pure (BigDec.roundInt y)
 
+/-- The storeless head of `Relay.Validate`: payload, meta height allowance, request hash, hosted
+chain, session height argument, `PrevCtx`. -/
+def preChecks (E : Env) (r : Relay) (sbhArg : Int) : Option Fail :=
+  if r.data = "" ∧ r.path = "" then some (pc 25)
+  else if E.height + E.blockAllowance < r.metaHeight ∨ E.height - E.blockAllowance > r.metaHeight then some (pc 75)
+  else if r.proof.requestHash ≠ E.requestHashOf r then some (pc 74)
+  else if !E.hosted.contains r.proof.chain then some (pc 26)
+  else if r.proof.sbh ≠ sbhArg then some (pc 60)
+  else if !E.prevCtxOk sbhArg then some (.err "sdk" 1)
+  else none
+
+/-- `GetTotalProofs` (→ `GetEvidence`, which `log.Fatalf`s when nothing is stored and the allowance
+is zero, and seals an evidence that has reached the allowance), `IsSealed`, `IsUniqueProof`,
+over-service. -/
+def evidenceChecks (E : Env) (max : Int) : Option Fail :=
+  if !E.evidence.found ∧ max = 0 then some .fatal
+  else if E.evidence.sealed_ || (E.evidence.found && max ≠ 0 && E.evidence.n ≥ max) then some (pc 90)
+  else if E.evidence.has then some (pc 37)
+  else if E.evidence.n ≥ max then some (pc 71)
+  else none
+
+/-- Session from the cache or `NewSession` (with session rollover the end-of-session context is
+fetched first: its failure path dereferences a nil error), then `Session.Validate`. -/
+def sessionStage (E : Env) (p : Proof) (app : App) (count sbhArg : Int) : Option Fail :=
+  if E.height > sbhArg + E.bps - 1 ∧ !E.sessionEndCtxOk then some .panic
+  else match E.session with
+  | .error (sp, c) => some (.err sp c)
+  | .ok nodes => sessionValidate E p app nodes count
+
+/-- `Relay.Validate` after the application record has been found. -/
+def validateApp (E : Env) (r : Relay) (sbhArg : Int) (app : App) : Res :=
+  if E.enforceMaxChains ∧ (app.chains.length : Int) > E.maxChains then .fail (pc 91)
+  else match maxPossibleRelays app (E.nodeCount sbhArg) with
+  | none => .fail .panic
+  | some max =>
+    match evidenceChecks E max with
+    | some e => .fail e
+    | none =>
+    match validateLocal E r.proof app.chains sbhArg with
+    | some e => .fail e
+    | none =>
+    match sessionStage E r.proof app (E.nodeCount sbhArg) sbhArg with
+    | some e => .fail e
+    | none => .ok max
+
 /-- `Relay.Validate(ctx, …, sessionBlockHeight, servicerNode)`. -/
 def validate (E : Env) (r : Relay) (sbhArg : Int) : Res :=
-  let p := r.proof
-  if r.data = "" ∧ r.path = "" then pc 25
-  else if E.height + E.blockAllowance < r.metaHeight ∨ E.height - E.blockAllowance > r.metaHeight then pc 75
-  else if p.requestHash ≠ E.requestHashOf r then pc 74
-  else if !E.hosted.contains p.chain then pc 26
-  else if p.sbh ≠ sbhArg then pc 60
-  else if !E.prevCtxOk sbhArg then .err "sdk" 1
-  else match E.appAt sbhArg p.token.appPub with
-  | none => pc 45
-  | some app =>
-    if E.enforceMaxChains ∧ (app.chains.length : Int) > E.maxChains then pc 91
-    else
-    let count := E.nodeCount sbhArg
-    match maxPossibleRelays app count with
-    | none => .panic
-    | some max =>
-      -- GetTotalProofs → GetEvidence
-      if !E.evidence.found ∧ max = 0 then .fatal
-      else
-      -- an evidence that has reached the allowance is sealed on the way
-      let sealed' := E.evidence.sealed_ || (E.evidence.found && max ≠ 0 && E.evidence.n ≥ max)
-      if sealed' then pc 90
-      else if E.evidence.has then pc 37
-      else if E.evidence.n ≥ max then pc 71
-      else match validateLocal E p app.chains sbhArg with
-      | some e => e
-      | none =>
-        -- session from the cache or generated; with session rollover the end-of-session context
-        if E.height > sbhArg + E.bps - 1 ∧ !E.sessionEndCtxOk then .panic   -- `er.Error()` on a nil error
-        else match E.session with
-        | .error (sp, c) => .err sp c
-        | .ok nodes =>
-          match sessionValidate E p app nodes count with
-          | some e => e
-          | none => .ok max
+  match preChecks E r sbhArg with
+  | some e => .fail e
+  | none =>
+  match E.appAt sbhArg r.proof.token.appPub with
+  | none => .fail (pc 45)
+  | some app => validateApp E r sbhArg app
 
 /-- `GetLatestSessionBlockHeight`. -/
 def latestSessionHeight (height bps : Int) : Int :=
@@ -239,6 +262,6 @@ def withinTolerance (E : Env) (sbh : Int) : Bool :=
 /-- `HandleRelay` up to the decision to serve: tolerance, then `Validate` with the proof's own
 session height as argument. -/
 def handleRelay (E : Env) (r : Relay) : Res :=
-  if !withinTolerance E r.proof.sbh then pc 60 else validate E r r.proof.sbh
+  if !withinTolerance E r.proof.sbh then .fail (pc 60) else validate E r r.proof.sbh
 
 end RelayAuth
